@@ -209,7 +209,7 @@ def run(tier):
     tablecheck.report_tables(rep, res, {ts.P + "bidi::BIDI_CLASS_TABLE"}, rule="L5")
     bt = res["tables"].get(ts.P + "bidi::BIDI_CLASS_TABLE", {})
     rep.ob("classes", "classes used by the table", set(bt.get("classes", [])) <= set(names), "table uses %s" % sorted(set(bt.get("classes", [])) - set(names)))
-    common.lookup_sites(prog, rep, floor=6)
+    common.lookup_sites(prog, rep)
     # default class on a miss and lookup result: A4 on bidi_class_cp with the search as oracle
     lookup_default(prog, rep)
     # (b)
